@@ -8,6 +8,7 @@ use ark_bulletproofs::r1cs::*;
 use ark_bulletproofs::{BulletproofGens, PedersenGens};
 use ark_ec::AffineRepr;
 use merlin::Transcript;
+use rand_core::SeedableRng;
 
 const ALPHA1: [Op; 6] = [Op::Commit, Op::CommitDup, Op::Alloc, Op::AllocMul, Op::Mul, Op::Con];
 const ALPHA2: [Op; 4] = [Op::Alloc, Op::AllocMul, Op::Mul, Op::Con];
@@ -169,6 +170,27 @@ pub fn enumerate_part<G: AffineRepr + 'static>(max1: usize, max2: usize, seed: u
         let len2 = prover.multipliers_len();
         let r5 = prover.allocate(Some(FOf::<G>::from(5u64)));
         out.push(("prover: a missing assignment while a gate is half open gives MissingAssignment, moves nothing, and the next allocation is MultiplierRight(0)".into(), matches!(r4, Err(R1CSError::MissingAssignment)) && len1 == len2 && matches!(r5, Ok(Variable::MultiplierRight(0)))));
+        // in the randomized phase: the error the closure propagates is what `prove` returns
+        for which in 0..3 {
+            let mut t = Transcript::new(b"c16");
+            let mut prover = Prover::new(&pc, &mut t);
+            let _ = prover.allocate_multiplier(Some((FOf::<G>::from(2u64), FOf::<G>::from(3u64))));
+            if which == 2 {
+                prover.specify_randomized_constraints(|rcs| rcs.allocate(Some(FOf::<G>::from(4u64))).map(|_| ())).unwrap();
+            }
+            prover
+                .specify_randomized_constraints(move |rcs| {
+                    if which == 1 {
+                        rcs.allocate_multiplier(None).map(|_| ())
+                    } else {
+                        rcs.allocate(None).map(|_| ())
+                    }
+                })
+                .unwrap();
+            let mut ext = rand_chacha::ChaChaRng::seed_from_u64(seed);
+            let r = prover.prove(&mut ext, &bp);
+            out.push((format!("prover: a missing assignment inside a randomized closure ({}) makes prove return MissingAssignment: {:?}", ["allocate", "allocate_multiplier", "allocate in the second of two closures"][which], r.as_ref().err()), matches!(r, Err(R1CSError::MissingAssignment))));
+        }
     }
     out.push((format!("all {} call sequences give reference handles and gate counts on both roles", count), out.iter().all(|c| c.1)));
     (count, out)
